@@ -60,6 +60,13 @@ def correspondence(ctx):
     S.check_real_rows(ctx, rows, opts, "C08")
     S.check_real_rows(ctx, [None], S.gen_world_options(rng, ctx.budget(6, 40)), "C08")  # the world aggregate
     S.check_country_inputs(ctx, S.country_rows(ctx))
+    # every PAIR of option values at the parameters stage (a covering array of ~70 option sets), for one country in the quick tier (rotating with the seed)
+    from lib import pipeline
+    allrows = S.country_rows(ctx)
+    pick = [r for r in allrows if S.iso_of(r) == "ARG"][:1] + rng.sample(allrows, ctx.budget(1, 5))
+    pw = pipeline.pairwise_sets(S.OPTION_VALUES, rng, base=S.BASE_OPTION)
+    ctx.extra["pairwise_option_sets"] = len(pw)
+    S.check_real_rows(ctx, pick[-ctx.budget(1, 6):], pw, "C08")
 
 
 def search(ctx):
